@@ -208,7 +208,64 @@ func scopedGroup(r *core.Rand, st pred.Style) (u *pred.Unit, alt *pred.Node, dep
 	return u, alt, p.depth()
 }
 
-var scopeFinishers = []string{"Find", "Pluck", "Count+Pluck on one handle", "Update", "Delete", "FirstPK", "UpdatePK", "DeletePK", "ModelPK.Delete"}
+var errBatchBound = errors.New("harness: batch bound reached")
+
+// batchRead reads a chain through FindInBatches(batchSize) and returns the ids in the order the callback saw them.
+// The statement demands that the chain reads exactly its rows: every selected row is delivered, each once. The loop
+// gorm runs is bounded logically: over nrows rows no correct run needs more than nrows/batchSize+1 batches.
+func batchRead(d *gorm.DB, soft bool, nrows, batchSize int) (ids []int64, problems []string, err error) {
+	bound := nrows/batchSize + 3
+	var rowsS []SRow
+	var rowsP []pred.Row
+	var dest interface{} = &rowsP
+	if soft {
+		dest = &rowsS
+	}
+	batches := 0
+	res := d.FindInBatches(dest, batchSize, func(tx *gorm.DB, n int) error {
+		batches++
+		cnt := 0
+		if soft {
+			for _, o := range rowsS {
+				ids = append(ids, o.ID)
+			}
+			cnt = len(rowsS)
+		} else {
+			for _, o := range rowsP {
+				ids = append(ids, o.ID)
+			}
+			cnt = len(rowsP)
+		}
+		if cnt > batchSize {
+			problems = append(problems, fmt.Sprintf("batch %d holds %d rows, batch size is %d", n, cnt, batchSize))
+		}
+		if batches >= bound {
+			return errBatchBound
+		}
+		return nil
+	})
+	if errors.Is(res.Error, errBatchBound) {
+		problems = append(problems, fmt.Sprintf("FindInBatches(size %d) over a table of %d rows was stopped after %d batches; rows delivered so far: %v", batchSize, nrows, batches, ids))
+		return ids, problems, nil
+	}
+	if res.Error != nil {
+		return ids, problems, res.Error
+	}
+	seen := map[int64]bool{}
+	for _, id := range ids {
+		if seen[id] {
+			problems = append(problems, fmt.Sprintf("row %d delivered more than once; delivery order %v", id, ids))
+			break
+		}
+		seen[id] = true
+	}
+	if res.RowsAffected != int64(len(ids)) {
+		problems = append(problems, fmt.Sprintf("RowsAffected=%d but %d rows delivered", res.RowsAffected, len(ids)))
+	}
+	return ids, problems, nil
+}
+
+var scopeFinishers = []string{"Find", "FindInBatches", "Pluck", "Count+Pluck on one handle", "Update", "Delete", "FirstPK", "UpdatePK", "DeletePK", "ModelPK.Delete"}
 
 // runScopeTrees: a chain whose condition calls are spread over nested scope functions selects exactly the rows of
 // all its units; so does a chain with a grouped sub-builder that carries scopes.
@@ -262,6 +319,14 @@ func runScopeTrees(c *core.Ctx, st pred.Style, table []pred.Row) {
 		if soft && strings.Contains(fin, "PK") {
 			fin = "Pluck" // keys on the soft-delete twin are runKeys' business
 		}
+		batchSize := 0
+		if fin == "FindInBatches" {
+			if table[0].ID == 0 {
+				fin = "Find" // FindInBatches refuses a batch that ends in a zero key (ErrPrimaryKeyRequired)
+			} else {
+				batchSize = r.Range(1, 3)
+			}
+		}
 		pk := int64(0)
 		if strings.Contains(fin, "PK") {
 			pk = int64(r.Range(1, len(table)))
@@ -271,6 +336,9 @@ func runScopeTrees(c *core.Ctx, st pred.Style, table []pred.Row) {
 			tname, model = "rwsd", func(id int64) interface{} { return &SRow{ID: id} }
 		}
 		desc := fmt.Sprintf("%s on %s: db.%s", fin, tname, p.text())
+		if batchSize != 0 {
+			desc += fmt.Sprintf(" [batch size %d]", batchSize)
+		}
 		if pk != 0 {
 			desc += fmt.Sprintf(" [key %d]", pk)
 		}
@@ -314,6 +382,10 @@ func runScopeTrees(c *core.Ctx, st pred.Style, table []pred.Row) {
 				}
 			}
 			err = res.Error
+		case "FindInBatches":
+			var ps []string
+			got, ps, err = batchRead(p.apply(root), soft, len(table), batchSize)
+			problems = append(problems, ps...)
 		case "Pluck":
 			err = p.apply(root.Model(model(0))).Pluck("id", &got).Error
 		case "Count+Pluck on one handle":
@@ -430,8 +502,14 @@ func runScopeTrees(c *core.Ctx, st pred.Style, table []pred.Row) {
 			for _, s := range exec {
 				hasOr = hasOr || s.Op == "or"
 			}
-			c.Shape("scopeprog", kind, soft, d, len(exec), hasOr, fin)
+			c.Shape("scopeprog", kind, soft, d, len(exec), hasOr, fin, len(want) > batchSize)
 			c.Inc("nontrivial_scope_programs")
+			if batchSize != 0 && len(want) > batchSize {
+				c.Inc("nontrivial_scope_programs_in_several_batches")
+				if d >= 2 && hasOr {
+					c.Inc("nontrivial_scope_programs_in_several_batches_nested_or")
+				}
+			}
 			if d >= 2 {
 				c.Inc("nontrivial_scope_programs_nested")
 			}
